@@ -1,4 +1,5 @@
 import Q1t.Proofs.SimGFStep
+import Q1t.Proofs.SimGFAll
 /-!
 C01, step 6: the fragment F and the multinomial law `exec_gf` of the simulator model
 (see `SimGFStep.lean` for the hypotheses `Hyps` and the per-operation lemmas).
@@ -21,17 +22,17 @@ def InF (n : Nat) (valid : GateTerm P → List Nat → Prop) : COp P → Prop
   | .cond control _ g bits => valid g bits ∧ ctlOK control
   | .measure q c _ => q < n ∧ c < 64
   | .reset q => q < n
-  | .measureAll _ _ => False
+  | .measureAll cbits b => b = .Z ∧ cbits.length = n ∧ cbits.Nodup ∧ ∀ c ∈ cbits, c < 64
   | .barrier _ => True
   | .resetAll => False
   | .peek _ _ _ => False
   | .peekAll _ _ => False
 
-variable (ord : List (Nat × Nat) → List (Nat × Nat)) (toR : α →+* R)
+variable {ord : List (Nat × Nat) → List (Nat × Nat)} (toR : α →+* R)
 
 /-! ### one operation, operation lists -/
 
-theorem op_step (H : Hyps α P nz n valid) {rs : List (Rng α)} (hgood : Good n N rs) {op : COp P}
+theorem op_step (hord : ∀ l, (ord l).Perm l) (H : Hyps α P nz n valid) {rs : List (Rng α)} (hgood : Good n N rs) {op : COp P}
     (hop : InF n valid op) {K : VecState α × List Nat → R} {g : List α × Nat → R}
     (hK : Mult n N K g) (hg : Scales (P := P) toR g) :
     expectOrd ord toR (execOp (vecBackend (α := α) (P := P)) (mkState n N rs) (mkReg rs) op) K =
@@ -45,7 +46,9 @@ theorem op_step (H : Hyps α P nz n valid) {rs : List (Rng α)} (hgood : Good n 
   | measure q c b => exact measure_step ord toR H hgood b hop.1 hop.2 hK hg
   | reset q => exact reset_step ord toR H hgood hop hK hg
   | barrier _ => simp only [execOp, expectOrd_pure, stepGf]; exact hK rs hgood
-  | measureAll cbits b => exact absurd hop id
+  | measureAll cbits b =>
+    obtain ⟨rfl, h1, h2, h3⟩ := hop
+    exact measureAll_step hord toR H hgood h1 h2 h3 hK hg
   | resetAll => exact absurd hop id
   | peek _ _ _ => exact absurd hop id
   | peekAll _ _ => exact absurd hop id
@@ -63,7 +66,7 @@ theorem shotProd_mkReg (x : Nat → R) (s : VecState α) (rs : List (Rng α)) :
 /-- **the multinomial law of the simulator model on F**: from every homogeneous normalised ranges state,
 for every commutative ring `R`, every `x : Word → R`, every ordering oracle `ord` of the categorical
 outcomes -/
-theorem exec_gf (H : Hyps α P nz n valid) (x : Nat → R) : ∀ (ops : List (COp P)), (∀ op ∈ ops, InF n valid op) →
+theorem exec_gf (hord : ∀ l, (ord l).Perm l) (H : Hyps α P nz n valid) (x : Nat → R) : ∀ (ops : List (COp P)), (∀ op ∈ ops, InF n valid op) →
     ∀ rs : List (Rng α), Good n N rs →
     expectOrd ord toR (execOps (vecBackend (α := α) (P := P)) (mkState n N rs) (mkReg rs) ops) (shotProd x) =
       value (gfShot n toR x ops) rs := by
@@ -79,7 +82,7 @@ theorem exec_gf (H : Hyps α P nz n valid) (x : Nat → R) : ∀ (ops : List (CO
     intro hF rs hgood
     simp only [execOps]
     rw [expectOrd_bind]
-    exact op_step ord toR H hgood (hF op (by simp))
+    exact op_step toR hord H hgood (hF op (by simp))
       (fun rs' hg' => ih (fun o ho => hF o (by simp [ho])) rs' hg')
       (gfShot_scales toR H.amp H.sim n x rest)
 
@@ -118,11 +121,11 @@ theorem good_init (H : Hyps α P nz n valid) (hN : 0 < N) : Good n N [(N, (ket0 
 
 /-- **histogram law**: `N ≥ 1` shots of a circuit of F from `|0…0⟩`, register cleared: the generating
 function of the register contents is the `N`-th power of the single-shot generating function -/
-theorem histogram_gf (H : Hyps α P nz n valid) (x : Nat → R) (ops : List (COp P)) (hF : ∀ op ∈ ops, InF n valid op)
+theorem histogram_gf (hord : ∀ l, (ord l).Perm l) (H : Hyps α P nz n valid) (x : Nat → R) (ops : List (COp P)) (hF : ∀ op ∈ ops, InF n valid op)
     (hN : 0 < N) :
     expectOrd ord toR (execOps (vecBackend (α := α) (P := P)) (VecState.new n N) (List.replicate N 0) ops)
       (shotProd x) = gfShot n toR x ops (ket0 n, 0) ^ N := by
-  have := exec_gf ord toR H x ops hF _ (good_init (N := N) H hN)
+  have := exec_gf toR hord H x ops hF _ (good_init (N := N) H hN)
   rw [← new_eq_mkState, show mkReg [(N, (ket0 n : List α), 0)] = List.replicate N 0 from by simp [mkReg]] at this
   rw [this]
   simp [value]
@@ -170,12 +173,12 @@ theorem prod_avoid (v : Nat) : ∀ l : List Nat,
 
 /-- **values of probability zero never occur**: if the single-shot coefficient of the register value `v` is
 zero, the expected value of the indicator "some shot shows `v`" is zero -/
-theorem zero_prob_never (H : Hyps α P nz n valid) (ops : List (COp P)) (hF : ∀ op ∈ ops, InF n valid op)
+theorem zero_prob_never (hord : ∀ l, (ord l).Perm l) (H : Hyps α P nz n valid) (ops : List (COp P)) (hF : ∀ op ∈ ops, InF n valid op)
     (hN : 0 < N) (v : Nat) (hv : gfShot n toR (fun u => if u = v then (1 : R) else 0) ops (ket0 n, 0) = 0) :
     expectOrd ord toR (execOps (vecBackend (α := α) (P := P)) (VecState.new n N) (List.replicate N 0) ops)
       (fun sc => if v ∈ sc.2 then (1 : R) else 0) = 0 := by
-  have h1 := histogram_gf ord toR H (fun _ => (1 : R)) ops hF hN
-  have h2 := histogram_gf ord toR H (fun u => if u = v then (0 : R) else 1) ops hF hN
+  have h1 := histogram_gf toR hord H (fun _ => (1 : R)) ops hF hN
+  have h2 := histogram_gf toR hord H (fun u => if u = v then (0 : R) else 1) ops hF hN
   have hsplit : gfShot n toR (fun _ => (1 : R)) ops ((ket0 n : List α), 0) =
       gfShot n toR (fun u => if u = v then (1 : R) else 0) ops (ket0 n, 0) +
       gfShot n toR (fun u => if u = v then (0 : R) else 1) ops (ket0 n, 0) := by
@@ -265,17 +268,35 @@ theorem gfShot_one (H : Hyps α P nz n valid) : ∀ (ops : List (COp P)), (∀ o
       rw [ih _ _ (by rw [project_length]; exact hψ), ih _ _ (gateOn_length _ _ _ _),
         H.sem.iso _ _ vX _ (by rw [project_length]; exact hψ), ← map_add, normSqSum_split H.sim]
     | barrier _ => simp only [stepGf]; exact ih ψ w hψ
-    | measureAll cbits b => exact absurd hop id
+    | measureAll cbits b =>
+      obtain ⟨rfl, hlen, hnd, hlt⟩ := hop
+      simp only [stepGf]
+      have hterm : ((List.range (2 ^ n)).map fun idx => gfShot n (⇑toR) (fun _ => (1 : R)) rest
+          (measureAllTo (P := P) n .Z (fun q => qbit n q idx == 1) ψ, wordAll n cbits w idx)) =
+          (List.range (2 ^ n)).map fun idx => toR (SimAmp.normSq (ψ.getD idx 0)) := by
+        apply List.map_congr_left
+        intro idx hidx
+        have hi := List.mem_range.mp hidx
+        rw [measureAllTo_basis (P := P) n idx hi ψ hψ, ih _ _ (by simp [basisV]), normSqSum_smul H.amp H.sim,
+          normSqSum_basisV H.amp H.sim n idx hi, one_mul, H.sim.normSq_eq]
+      have hψ' : (List.range (2 ^ n)).map (fun idx => SimAmp.normSq (ψ.getD idx 0)) = ψ.map SimAmp.normSq := by
+        apply List.ext_getElem
+        · simp [hψ]
+        · intro i h1 h2
+          have : i < ψ.length := by simpa using h2
+          simp [List.getD_eq_getElem?_getD, this]
+      rw [hterm, normSqSum, ← hψ', map_list_sum, List.map_map]
+      rfl
     | resetAll => exact absurd hop id
     | peek _ _ _ => exact absurd hop id
     | peekAll _ _ => exact absurd hop id
 
 /-- **a circuit of F never fails** (no error return, no panic site is reached with positive probability):
 the total probability of the successful runs is 1 -/
-theorem exec_total (H : Hyps α P nz n valid) (ops : List (COp P)) (hF : ∀ op ∈ ops, InF n valid op) (hN : 0 < N) :
+theorem exec_total (hord : ∀ l, (ord l).Perm l) (H : Hyps α P nz n valid) (ops : List (COp P)) (hF : ∀ op ∈ ops, InF n valid op) (hN : 0 < N) :
     expectOrd ord toR (execOps (vecBackend (α := α) (P := P)) (VecState.new n N) (List.replicate N 0) ops)
       (fun _ => (1 : R)) = 1 := by
-  have h1 := histogram_gf ord toR H (fun _ => (1 : R)) ops hF hN
+  have h1 := histogram_gf toR hord H (fun _ => (1 : R)) ops hF hN
   rw [gfShot_one toR H ops hF _ _ (by simp [ket0]), normSqSum_ket0 H, map_one, one_pow] at h1
   have hfun : (fun _ : VecState α × List Nat => (1 : R)) = shotProd (fun _ => (1 : R)) := by
     funext sc; simp [shotProd]
